@@ -26,13 +26,13 @@ def trace_cov(run, stats):
     run.cov["untraceable_entries"] = [a for s in stats if s for a in s.get("aborts", [])][:40]
 
 
-def oracle_sweep(run, pid, variants, tier):
+def oracle_sweep(run, pid, variants, tier, opt="-O0"):
     """variants: list of (suffix, flags, std). builds tools/oracle/oracle_<pid>.cpp per variant and runs `sweep seed tier`."""
     src = os.path.join(core.VERIF, "tools", "oracle", "oracle_%s.cpp" % pid)
     def one(v):
         suffix, flags = v[0], v[1]; std = v[2] if len(v) > 2 else "gnu++17"
         exe = os.path.join(run.dir, "oracle_%s_%s" % (pid, suffix))
-        ok, err = run.build_cpp(src, exe, flags, std=std, opt="-O0")
+        ok, err = run.build_cpp(src, exe, flags, std=std, opt=opt)
         if not ok:
             return suffix, None, err
         return suffix, run.run_oracle(exe, ["sweep", run.seed, tier]), None
@@ -272,7 +272,29 @@ def run_C01(run):
                       CHECKER)
 
 
-TABLE = {"C01": run_C01, "C13": run_C13, "C09": run_C09, "C04": run_C04, "C02": run_C02, "C10": run_C10, "C08": run_C08, "C17": run_C17, "C12": run_C12}
+# ------------------------------------------------------------------------------------------ C07
+TRUST_H = [
+    "Coq 8.16.1 kernel (coqc) including the vm_compute virtual machine; native_compute is not used",
+    "hand-written Gallina model (coq/models) of the concrete bit-level code: MODELLED, not verified; tied to /repo by the correspondence check on every run (implementation driver tools/corr/impl_*.cpp vs the model extracted to OCaml)",
+    "extraction: ExtrOcamlBasic only (Extract Inductive bool, option, unit, list, prod, sumbool -> OCaml's); no Extract Constant; Z stays the extracted Coq datatype; OCaml 4.13 runtime; corr_driver.ml line protocol",
+    "generator coverage of the correspondence inputs bounds what a mismatch can reveal (distribution recorded below)",
+]
+
+def run_C07(run):
+    run.prove([], [], ["C07/P_C07_h2f.v", "C07/P_C07_f2h.v"], "C07/Properties_C07.v")
+    run.run_corr("impl_C07.cpp", [run.seed, run.tier])
+    fails = oracle_sweep(run, "C07", [("f16c", ["-mf16c", "-pthread"])], "thorough", opt="-O2")   # the complete 2^32 sweep takes 5 s: always run it
+    run.fails = run.triage(fails)
+    run.assumptions = ["overflow()'s volatile side effect (raising a hardware floating-point overflow) is not modelled",
+                       "oracle: hardware F16C conversions are taken as the IEEE-754 binary16 reference (round-to-nearest-even; one code of slack on exact ties, where the property allows either neighbour)",
+                       "monotonicity over all floats is implied by the nearest-neighbour theorems and tested pairwise by the oracle; it is not a separate theorem"]
+    run.samples.append("correspondence: all 65536 half patterns x {toFloat32, unpackHalf1x16, 2x16, 4x16, unpackHalf<1..4>}; float->half: 256 exponents x 2 signs x (21 boundary fractions + 48 single-bit/run fractions + 60 random) + 5 ulp around every 5th half and midpoint + 50k random x {toFloat16, packHalf1x16, 2x16, 4x16, packHalf<2..4>}")
+    return run.finish(TRUST_H + ["oracle_C07.cpp: complete enumeration of the 2^32 float patterns and 2^16 half patterns against hardware F16C (violation search)"],
+                      "theorems: half->float exhaustive over 2^16 patterns (vm_compute, finite domain); float->half for every biased exponent range with the 23-bit fraction symbolic (lia/nia): all 2^32 patterns. Correspondence inputs are distinct by construction.",
+                      "coqc -Q /verif/coq/lib GLMV -Q /verif/coq/models GLMM -Q /verif/_work/C07 W {P_C07_h2f.v, P_C07_f2h.v, Properties_C07.v}; tools/corr/impl_C07 | coq/extract/corr_model")
+
+
+TABLE = {"C07": run_C07, "C01": run_C01, "C13": run_C13, "C09": run_C09, "C04": run_C04, "C02": run_C02, "C10": run_C10, "C08": run_C08, "C17": run_C17, "C12": run_C12}
 
 
 def replay(pid, path):
